@@ -170,8 +170,15 @@ def environment_acc(modname, funcname, payload, envname):
             rec["sig"] = new
             rec["case"] = dict(rec["case"], environment=envname) if isinstance(rec["case"], dict) else rec["case"]
             rec.pop("task", None)
-            rec.pop("task_history", None)
+            # a violation that does not reproduce on its own is re-run after everything this environment run executed before it:
+            # the whole run, in a new interpreter of the same environment
+            rec["task_history"] = [["mc.runner", "environment_task", {"modname": modname, "funcname": funcname, "payload": dict(payload), "envname": envname}]]
     return acc
+
+
+def environment_task(p):
+    """Worker: one whole environment run (used to re-run the history of a violation found in it)."""
+    return environment_acc(p["modname"], p["funcname"], p["payload"], p["envname"])
 
 
 class EnvironmentRuns:
